@@ -18,6 +18,9 @@ OL_NONLOCAL_DICT: _ol_reserved_name = "__ol_nonlocal_{}"
 OL_CLASS_DICT: _ol_reserved_name = "__ol_classnsp_{}"
 OL_CLASS_LOADER: _ol_reserved_name = "__ol_loader_{}"
 OL_CLASS_DECORATOR: _ol_reserved_name = "__ol_deco_{}"
+OL_CLASS_MEMBER_KEY: _ol_reserved_name = "__ol_key_{}"
+OL_CLASS_MEMBER_VALUE: _ol_reserved_name = "__ol_val_{}"
+OL_UNUSED: _ol_reserved_name = "__ol_unused_{}"
 OL_IMPORT_TMP: _ol_reserved_name = "__ol_mod_{}"
 
 
